@@ -83,7 +83,11 @@ def modes():
                 yield cf, udp, fd
 
 
-def talker_args(cf, udp, fd, count):
+def talker_args(cf, udp, fd, count, count_first=False):
+    if count_first:
+        # the same options, the frame count given first (an option that is evaluated while the others are still unparsed)
+        rest = talker_args(cf, udp, fd, count).replace(' -c %d' % count, '')
+        return '-c %d ' % count + rest
     a = []
     if cf == 'tscf':
         a.append('-t')
@@ -111,6 +115,7 @@ def run(prop, tier):
     b = core.fresh_dir(os.path.join(core.ROOT, 'build', 'C19'))
     planted = e4.selftest(b)
     cases = []      # (id, mode, count, frames(list per packet list))
+    count_first = set()      # indices of cases run with the -c option first on the command line
     for cf, udp, fd in modes():
         A, R = alphabet(fd), reduced(fd)
         for fr in A:
@@ -146,16 +151,22 @@ def run(prop, tier):
         maxd = 64 if fd else 8
         cap_max, cap_zero = (1500 - hdrlen) // (16 + maxd), min(255, (1500 - hdrlen) // 16)
         for cnt in sorted({cap_max - 1, cap_max, cap_max + 1, cap_max + 8, cap_zero, min(255, cap_zero + 1), 255}):
-            for shape in ('max', 'zero', 'mix'):
+            # (FD socket: also filled with classic frames only, and with classic and FD frames alternating)
+            for shape in ('max', 'zero', 'mix') + (('classic', 'alternating') if fd else ()):
                 nfr = 2 * cnt
                 fill = []
                 for k in range(nfr):
                     cid, _, flags = R[k % len(R)]
                     ln = maxd if shape == 'max' else 0 if shape == 'zero' else (k * 7) % (maxd + 1)
-                    if fd and ln not in FD_LENS:
+                    if shape == 'classic' or shape == 'alternating' and k % 2 == 0:
+                        ln, flags = 8 - (k % 3), 0
+                    if fd and flags and ln not in FD_LENS:
                         ln = max(x for x in FD_LENS if x <= ln)
                     fill.append((cid, bytes((k + i) & 0xFF for i in range(ln)), flags))
                 cases.append(((cf, udp, fd), cnt, fill))
+                if shape in ('max', 'classic'):
+                    count_first.add(len(cases))
+                    cases.append(((cf, udp, fd), cnt, fill))
         # a long run through one talker and one listener process: 300 single-frame packets (the 8-bit sequence numbers wrap)
         cases.append(((cf, udp, fd), 1, [(R[k % len(R)][0], bytes((k + i) & 0xFF for i in range(1 + k % 8)), R[k % len(R)][2]) for k in range(300)]))
         # consecutive packets whose layout changes, payloads all ones (whatever one packet leaves in the talker's buffer must
@@ -177,11 +188,13 @@ def run(prop, tier):
         e = res.viol.setdefault(('C19', key), {'count': 0, 'case': case_id, 'detail': detail, 'tag': ''})
         e['count'] += 1
 
-    def tunnel(talker, listener, vtag):
+    def tunnel(talker, listener, vtag, sel=None):
         tscripts = []
         for i, (mode, count, frames) in enumerate(cases):
             cf, udp, fd = mode
-            tscripts.append(('t%d' % i, talker_args(cf, udp, fd, count), '-', ['C' + frame_bytes(fd, *[f[0], f[1], f[2]]).hex() for f in frames]))
+            if sel and not sel(i, mode, count, frames):
+                continue
+            tscripts.append(('t%d' % i, talker_args(cf, udp, fd, count, i in count_first), '-', ['C' + frame_bytes(fd, *[f[0], f[1], f[2]]).hex() for f in frames]))
         tres = e4.run_batch(talker, tscripts)
         lscripts = []
         pk = {}
@@ -189,6 +202,8 @@ def run(prop, tier):
 
         for i, (mode, count, frames) in enumerate(cases):
             cf, udp, fd = mode
+            if ('t%d' % i) not in tres:
+                continue
             st, eff, rep = tres['t%d' % i]
             cls = e4.classify(st, rep)
             mname = '%s/%s/%s' % (cf, 'udp' if udp else 'raw', 'fd' if fd else 'classic')
@@ -281,11 +296,15 @@ def run(prop, tier):
     tunnel(talker, listener, 'asan-O1')
     # again as the project's default build compiles the examples: -O0, locals not auto-initialised (still under ASan+UBSan)
     tunnel(e4.build_program(b, 'acf-can-talker', init='none'), e4.build_program(b, 'acf-can-listener', init='none'), 'O0')
+    # and for an ABI whose plain char is unsigned (ARM, PowerPC, RISC-V): the single frames of the alphabet, the pairs and
+    # the filled packets
+    tunnel(e4.build_program(b, 'acf-can-talker', extra_flags=('-funsigned-char',)), e4.build_program(b, 'acf-can-listener', extra_flags=('-funsigned-char',)), 'uchar',
+           sel=lambda i, mode, count, frames: len(frames) <= 2 or count > 3)
     ntun = tot['tun']
     res.counters = {'cases': len(cases), 'transitions': tot['scripts'], 'states': len(cases), 'nontrivial': ntun}
     json_cases = os.path.join(b, 'cases.json')
     import json
-    json.dump([[list(m), c, [[f[0], f[1].hex(), f[2]] for f in fr]] for m, c, fr in cases], open(json_cases, 'w'))
+    json.dump([[list(m) + [1 if k in count_first else 0], c, [[f[0], f[1].hex(), f[2]] for f in fr]] for k, (m, c, fr) in enumerate(cases)], open(json_cases, 'w'))
     core.finish('C19', tier, t0, res,
                 rule='tunnel runs = {TSCF,NTSCF} x {UDP,raw} x {classic,FD} x (every single frame of the alphabet: ids {0,1,0x7FF,0x800,0x1FFFFFFF} x EFF x RTR | BRS x ESI x lengths x 2 data patterns) + all ordered 2- and 3-tuples over the reduced alphabet {EFF x RTR | EFF x BRS x ESI} x {len 1, 8} with 2/3 frames per packet + two packets in sequence; real talker main() -> captured packets -> real listener main(); frames out compared with frames in; control header data length checked on every packet',
                 bounds={'tunnel_runs': ntun, 'frames_per_packet': [1, 2, 3, 'classic 42/43/60', 'FD 11/12/16 x 64 bytes', 'counts at capacity-1, capacity, capacity+1, capacity+8 (maximal frames), the same for empty frames, and 255, each with maximal / empty / mixed frame lengths'], 'longest_run': '300 packets through one talker/listener process', 'modes': 8},
@@ -305,11 +324,13 @@ def replay(prop, case):
         return 2
     which, idx = case.split('|')
     mode, count, frames = cases[int(idx)]
-    cf, udp, fd = mode
+    cf, udp, fd, cfirst = (list(mode) + [0])[:4]
     frames = [(f[0], bytes.fromhex(f[1]), f[2]) for f in frames]
-    talker = e4.build_program(b, 'acf-can-talker')
-    listener = e4.build_program(b, 'acf-can-listener')
-    t = e4.run_batch(talker, [('t', talker_args(cf, udp, fd, count), '-', ['C' + frame_bytes(fd, *f).hex() for f in frames])])['t']
+    # (replays with the plain-char-unsigned build when REPLAY_UCHAR is set: a difference that needs that ABI)
+    xf = ('-funsigned-char',) if os.environ.get('REPLAY_UCHAR') else ()
+    talker = e4.build_program(b, 'acf-can-talker', extra_flags=xf)
+    listener = e4.build_program(b, 'acf-can-listener', extra_flags=xf)
+    t = e4.run_batch(talker, [('t', talker_args(cf, udp, fd, count, bool(cfirst)), '-', ['C' + frame_bytes(fd, *f).hex() for f in frames])])['t']
     print('frames in :', [describe(f, fd) for f in frames])
     print('talker    :', t[0], t[1][:300], t[2][:300])
     pkts = [x[4:] for x in t[1].split(';') if x.startswith('PKT ')]
